@@ -76,14 +76,11 @@ func TestVerif(t *testing.T) {
 	}
 	if c.Replay != "" {
 		var h rh.History
-		if err := c.ReadReplay(&h); err != nil || len(h.Ops) == 0 {
-			// a failure of the concurrent phase has no operation history: re-run the phase
-			for _, f := range rh.ConcurrentSameSlot(60, 50000) {
-				c.Fail(f.Sig, f.Detail, "concurrent same-slot phase")
-				fmt.Printf("replay: %s: %s\n", f.Sig, f.Detail)
-			}
-			rh.WriteCases(c, nil)
+		if rh.ReplayOther(c) {
 			return
+		}
+		if err := c.ReadReplay(&h); err != nil {
+			t.Fatal(err)
 		}
 		o := rh.RunFixed(t, h.Name, h.Profile, h.Pools, h.Ops, mon, 8)
 		add(o)
